@@ -2,6 +2,8 @@ package kernel
 
 import (
 	"fmt"
+	"math/rand"
+	"sort"
 	"testing"
 	"time"
 
@@ -17,7 +19,10 @@ func TestVerif_C10(t *testing.T) {
 	r.SetRule("configuration grid: accepted counts 7..50, all-genesis or mixed ages (non-genesis nodes accepted at an offset so that the 30 s counting rule and the 12 h signing rule " +
 		"are each crossed by -1/0/+1 ns), with and without a predictable removal window, ordinary rounds and the round-zero acceptance certificate of a pledging chain; plus random " +
 		"membership histories at all record/maturity/window boundaries. For each configuration T = ConsensusThreshold(ts,true) and K = len(ConsensusKeys(round,ts)) are observed; " +
-		"oracle: effective base below 7 => T > K, otherwise 3*(2T-K) > K. non-trivial = distinct (K, T, round-zero?, window?) observations")
+		"oracle: effective base below 7 => T > K, otherwise 3*(2T-K) > K. In addition the threshold is MEASURED on sampled instants (also on main-network histories before the " +
+		"activation of the predictive signer set, where the legacy rule tries the key vector from before the operation window as well): honest certificates with K, K-1, ... signers " +
+		"are given to verifyFinalization and the smallest accepted count p must satisfy 3*(2p-K) > K over the key vector it was built on. " +
+		"non-trivial = distinct (K, T, round-zero?, window?) observations and distinct measured (K, p, vector) triples")
 	r.Assume("the key set K and threshold T are the ones verifyFinalization uses (the same calls); membership above 50 nodes cannot be created (pledge validation caps it)")
 	rng := r.Rand()
 	observe := func(h *verifHistory, node *Node, ts uint64, pledging *verifMember, cfg string) {
@@ -121,9 +126,32 @@ func TestVerif_C10(t *testing.T) {
 	}
 	// --- random histories ---
 	nh := r.N(12, 600)
+	measuredBudget := r.N(24, 1500)
 	for hi := 0; hi < nh; hi++ {
-		h := verifRandomHistory(fmt.Sprintf("c10-%d-%d", r.Seed, hi), rng, 7+rng.Intn(20), 5+rng.Intn(40))
+		var h *verifHistory
+		if hi%3 == 2 {
+			h = verifLegacyHistory(fmt.Sprintf("c10-%d-%d", r.Seed, hi), rng, 8+rng.Intn(19), 5+rng.Intn(40))
+			r.Count("legacy_rule_histories", 1)
+		} else {
+			h = verifRandomHistory(fmt.Sprintf("c10-%d-%d", r.Seed, hi), rng, 7+rng.Intn(20), 5+rng.Intn(40))
+		}
 		node := h.nodeNoCache()
+		// measured thresholds: what verifyFinalization really accepts, over the current key vector and (legacy
+		// rule) over the vector from before the operation window
+		mt := vC09LegacyTimes(h, rng)
+		if b := h.boundaries(rng, 4); len(b) > 0 {
+			mt = append(mt, b[rng.Intn(len(b))], b[rng.Intn(len(b))])
+		}
+		if len(mt) > 4 {
+			mt = mt[:4]
+		}
+		for _, ts := range mt {
+			if measuredBudget <= 0 {
+				break
+			}
+			measuredBudget--
+			vC10Measure(t, r, h, ts, rng)
+		}
 		for _, ts := range h.boundaries(rng, 30) {
 			list := h.refList(ts)
 			if len(list) == 0 {
@@ -144,4 +172,73 @@ func TestVerif_C10(t *testing.T) {
 		}
 	}
 	r.Finish()
+}
+
+
+// vC10Measure finds, by presenting honest certificates with fewer and fewer signers to verifyFinalization, the
+// smallest signer count accepted over a key vector, and applies the intersection bound to it.
+func vC10Measure(t *testing.T, r *verifkit.Run, h *verifHistory, ts uint64, rng *rand.Rand) {
+	list := h.refList(ts)
+	var accepted []*verifRefNode
+	for _, n := range list {
+		if n.State == common.NodeStateAccepted {
+			accepted = append(accepted, n)
+		}
+	}
+	if len(accepted) == 0 {
+		return
+	}
+	node := h.node(t)
+	chain := &Chain{node: node, ChainId: accepted[rng.Intn(len(accepted))].Id, State: &ChainState{}}
+	type vec struct {
+		name string
+		at   uint64
+	}
+	vecs := []vec{{"current-key-set", ts}}
+	if lts, ok := h.refLegacyTs(ts); ok {
+		vecs = append(vecs, vec{"legacy-key-set", lts})
+	}
+	for _, v := range vecs {
+		ids, pubs := chain.ConsensusKeys(1, v.at)
+		K := len(ids)
+		if K == 0 || K > 64 {
+			continue
+		}
+		minAccepted := 0
+		for n := K; n >= 1; n-- {
+			s := &common.Snapshot{Version: common.SnapshotVersionCommonEncoding, NodeId: chain.ChainId, RoundNumber: 1, Timestamp: ts,
+				References:   &common.RoundLink{Self: crypto.Blake3Hash([]byte("self")), External: crypto.Blake3Hash([]byte("ext"))},
+				Transactions: []crypto.Hash{crypto.Blake3Hash([]byte(fmt.Sprint("c10-measure", ts, n, v.name)))}}
+			s.Hash = s.PayloadHash()
+			pos := rng.Perm(K)[:n]
+			sort.Ints(pos)
+			sig, err := vC09Cosi(h, s.Hash, ids, pubs, pos)
+			if err != nil {
+				r.Count("signing_errors", 1)
+				break
+			}
+			s.Signature = sig
+			if _, ok := chain.verifyFinalization(s); !ok {
+				break
+			}
+			minAccepted = n
+		}
+		r.Eval()
+		r.Count("measured_thresholds_"+v.name, 1)
+		_, base := h.refThreshold(v.at, true)
+		if minAccepted == 0 {
+			r.Count("measured_key_vectors_without_accepted_certificate", 1)
+			continue
+		}
+		r.Nontrivial(fmt.Sprintf("measured|%d|%d|%s", K, minAccepted, v.name))
+		w := map[string]any{"key_vector": v.name, "K": K, "smallest_accepted_signer_count": minAccepted, "timestamp": ts, "counted_base": base,
+			"hours_since_epoch": float64(ts-h.Epoch) / float64(time.Hour), "main_network": h.NetworkId == verifMainnetId()}
+		if base < config.KernelMinimumNodesCount {
+			r.Violation("C10|measured|below-minimum|"+v.name, fmt.Sprintf("effective membership %d is below the minimum but a certificate of %d signers over %d keys is accepted", base, minAccepted, K), w)
+			continue
+		}
+		if 3*(2*minAccepted-K) <= K {
+			r.Violation("C10|measured|overlap|"+v.name, fmt.Sprintf("a certificate of %d signers over %d keys is accepted: two such certificates may share only %d <= %d/3 signers", minAccepted, K, 2*minAccepted-K, K), w)
+		}
+	}
 }
